@@ -27,8 +27,24 @@ func c08Legs(tier, o string) []pairLeg {
 			k = thin(k, 110)
 		}
 		add("K", k)
+		keys := []string{"id"}
+		if two {
+			keys = []string{"id", "t"}
+		}
+		add("large", Large().Filter(func(v V) bool {
+			a, ok := v.([]interface{})
+			if !ok || len(a) < 19 || !membersCarryKeys(v, keys) {
+				return false
+			}
+			_, isObj := a[0].(map[string]interface{})
+			return isObj
+		}))
 		return legs
 	}
+	add("large", Large().Filter(func(v V) bool {
+		a, ok := v.([]interface{})
+		return ok && len(a) >= 9 && len(a) <= 18 && ref.Nodes(v) <= 20
+	}))
 	if thorough {
 		add("A3x6", Arr(3, "6"))
 		add("A4x6", thin(Arr(4, "6"), 400))
